@@ -1281,6 +1281,8 @@ fn fixed(detached: bool, transport: Transport) -> Vec<Scenario> {
             waiters,
             hold_ms,
             via_drop: false,
+            close_on: CloseOn::Runtime,
+            fused: 0,
         });
     };
     let stay = |big| Script::InFlight { big, leave: Leave::Stay, nocx: false };
@@ -1318,6 +1320,31 @@ fn fixed(detached: bool, transport: Transport) -> Vec<Scenario> {
             s.via_drop = true;
             v.push(s);
         }
+    }
+    // shutdown requested from a plain thread outside any Tokio runtime, and
+    // waiters consumed through futures::select! (FusedFuture)
+    if raw {
+        let base = |conns: Vec<Script>, waiters: u32, close_on: CloseOn, fused: u32, via_drop: bool| Scenario {
+            transport,
+            detached,
+            conns: conns.into_iter().enumerate().map(|(i, s)| (i as u32 + 1, s)).collect(),
+            waiters,
+            hold_ms: 200,
+            via_drop,
+            close_on,
+            fused,
+        };
+        let stay = |big| Script::InFlight { big, leave: Leave::Stay, nocx: false };
+        let gone = Script::InFlight { big: false, leave: Leave::BeforeClose, nocx: true };
+        v.push(base(vec![], 2, CloseOn::BlockOn, 0, false));
+        v.push(base(vec![stay(false), Script::IdleKeepAlive], 1, CloseOn::BlockOn, 0, false));
+        v.push(base(vec![stay(true), gone.clone()], 2, CloseOn::Manual, 0, false));
+        v.push(base(vec![stay(false)], 1, CloseOn::BlockOn, 0, true));
+        v.push(base(vec![], 1, CloseOn::Runtime, 2, false));
+        v.push(base(vec![stay(false), gone.clone()], 2, CloseOn::Runtime, 2, false));
+        v.push(base(vec![stay(false)], 0, CloseOn::Runtime, 1, true));
+        v.push(base(vec![stay(false), Script::IdleFresh], 1, CloseOn::BlockOn, 2, false));
+        v.push(base(vec![gone], 0, CloseOn::Manual, 2, false));
     }
     v
 }
@@ -1358,6 +1385,8 @@ fn mixed(rng: &mut Rng, detached: bool, k: usize, transport: Transport) -> Scena
         waiters: rng.below(4) as u32,
         hold_ms: 150 + rng.below(200) as u64,
         via_drop: rng.chance(1, 6),
+        close_on: *rng.pick(&[CloseOn::Runtime, CloseOn::Runtime, CloseOn::Runtime, CloseOn::BlockOn, CloseOn::Manual]),
+        fused: if rng.chance(1, 3) { rng.range(1, 2) as u32 } else { 0 },
     }
 }
 
@@ -1384,7 +1413,7 @@ fn crowd(detached: bool, k: usize, leave: usize, idle: bool, transport: Transpor
     if idle {
         conns.push((k as u32 + 1, Script::InFlight { big: false, leave: Leave::Stay, nocx: false }));
     }
-    Scenario { transport, detached, conns, waiters: 2, hold_ms: 300, via_drop }
+    Scenario { transport, detached, conns, waiters: 2, hold_ms: 300, via_drop, close_on: CloseOn::Runtime, fused: 0 }
 }
 
 fn crowds(opts: &Opts) -> Vec<Scenario> {
@@ -1469,7 +1498,16 @@ fn generate(opts: &Opts) -> Vec<(&'static str, Scenario)> {
                 ];
                 v.push((
                     "long",
-                    Scenario { transport, detached, conns, waiters: 2, hold_ms, via_drop: hold_ms == 12000 },
+                    Scenario {
+                        transport,
+                        detached,
+                        conns,
+                        waiters: 2,
+                        hold_ms,
+                        via_drop: hold_ms == 12000,
+                        close_on: CloseOn::Runtime,
+                        fused: 0,
+                    },
                 ));
             }
         }
